@@ -574,10 +574,18 @@ def mon_stop(sc, r):
 def gen_cancel(seed, k):
     rng = random.Random(seed * 4447 + k)
     sc = e2e.Scenario(f"cancel{k}")
-    variant = ["cancel-then-delay", "delay-then-cancel", "timeout-counts", "max-fail-2", "no-fail-fast", "leak-window", "grace-cancel"][k % 7]
+    variant = ["cancel-then-delay", "delay-then-cancel", "timeout-counts", "max-fail-2", "no-fail-fast", "leak-window", "grace-cancel", "report-fails-in-delay"][k % 8]
     tests = []; extra = ""; threads = 4; ff = "true"; P, K, G = 60000, None, 300
     delay = 3000; leak = 200
-    if variant == "grace-cancel":
+    if variant == "report-fails-in-delay":
+        # nextest's terminal goes away while A (which fails, and has a retry after a 4 s delay) is running: the first write that
+        # fails is the report of A's failed attempt — reporting has failed, the run is cancelled for that reason (fail-fast is off),
+        # and A, sitting in its retry delay, must be told so: the run ends now, not 4 s later
+        delay = 4000; ff = "false"; threads = 2
+        sc.test("t_one", "a_retry", {"1": ["work:400", "exit:1"], "2": ["exit:0"]}); tests.append({"bin": "t_one", "pkg": "alpha", "name": "a_retry", "kind": "retry-report"})
+        extra = "\n[[profile.default.overrides]]\nfilter = 'test(a_retry)'\nretries = { backoff = \"fixed\", count = 1, delay = \"%dms\" }\n" % delay
+        sc.close_stderr_on = "TestStarted "
+    elif variant == "grace-cancel":
         # A has timed out and sits in its termination grace period (it ignores SIGTERM) when B's failure cancels the run: a non-signal
         # cancellation leaves running units alone, so A is killed at the END of its grace period, not when the cancellation arrives
         P, K, G = 300, 1, 2000; b_ms = rng.choice([800, 1000])
@@ -631,6 +639,19 @@ def mon_cancel(sc, r):
     cancels = [(ns, d) for (ns, k, d) in r.events if k == "RunBeginCancel"]
     procs = [p for p in r.procs if p.get("start") and not p.get("child") and "--exact" in p.get("argv", [])]
     last_end = max([p["end"][1] for p in procs if p.get("end")], default=r.t0)
+    if variant == "report-fails-in-delay":
+        will = [ns for (ns, k, d) in r.events if k == "TestAttemptFailedWillRetry"]
+        if not will: return [dict(mix.viol(sc, r, "machinery", f"[{variant}] the first attempt's failure was not reported (events {[k for _, k, _ in r.events][:8]})"), machinery=True)]
+        if not cancels or not cancels[0][1].startswith("ReportError"):
+            # the write that failed was not the one intended (or none failed): nothing to evaluate
+            return [dict(mix.viol(sc, r, "machinery", f"[{variant}] no cancellation for a reporting failure began: {[d for _, d in cancels]}"), machinery=True)]
+        a = tprocs(r, "t_one", "a_retry")
+        if len(a) != 1: V("retry-after-cancel", f"[{variant}] a_retry ran {len(a)} attempts; its retry must not start once the run is cancelled (reporting failed)")
+        over = ms(r.t1 - will[0])
+        if over > SLACK_HI + 500: V("sat-out-delay", f"[{variant}] reporting failed (the terminal went away) when a_retry's failed attempt was reported, and the run ended only {over:.0f} ms later (retry delay {m['delay']} ms): a cancelled run must not sit out retry delays, whatever the cause")
+        for (ns, k, d) in r.events:
+            if k in ("TestStarted", "TestRetryStarted") and ns > cancels[0][0]: V("start-after-cancel", f"[{variant}] {k} emitted after cancellation began: {d}")
+        return out
     if variant == "no-fail-fast":
         if cancels: V("cancelled", f"[{variant}] fail-fast = false but the run was cancelled: {cancels}")
         if len(procs) != 3: V("not-all-run", f"[{variant}] {len(procs)} of 3 tests ran")
@@ -923,7 +944,7 @@ FAMILIES["sig"] = (gen_sig, [mon_sig, mon_model, mon_system])
 FAMILIES["cancel"] = (gen_cancel, [mon_cancel, mon_system])
 FAMILIES["stop"] = (gen_stop, [mon_stop, mon_model])
 RULES = {
-    "cancel": "end-to-end family `cancel`: fail-fast / max-fail runs where the failure arrives while another test is still running and later fails into a retry delay, or is already waiting out a retry delay; where the triggering failure is a timeout; max-fail = 2 on one thread; fail-fast off; monitors: cancellation begins exactly at the N-th failure, nothing (no test, no retry) starts afterwards, the run ends as soon as the running tests have ended (no retry delay sat out), exit 100",
+    "cancel": "end-to-end family `cancel`: fail-fast / max-fail runs where the failure arrives while another test is still running and later fails into a retry delay, or is already waiting out a retry delay; where the triggering failure is a timeout; max-fail = 2 on one thread; fail-fast off; where reporting itself fails (nextest's terminal is a pipe closed under it, so that the report of a failed attempt is the first write to fail) while that test waits out its retry delay; monitors: cancellation begins exactly at the N-th failure, nothing (no test, no retry) starts afterwards, the run ends as soon as the running tests have ended (no retry delay sat out), exit 100",
     "stop": "end-to-end family `stop`: SIGTSTP then SIGCONT 700 ms later (nextest observed stopped/continued by its parent) while a test runs below its deadline, hangs towards its slow-timeout deadline, sits in the termination grace period (after a timeout, after a shutdown signal), or waits out a retry delay; SIGINT delivered while stopped; SIGUSR1 information requests; monitors: tests stopped and continued too, results and exit status unchanged, reported durations and the slow-timeout / grace / retry-delay clocks count running time only and keep working after resumption, no hang, no internal failure, each unit answers an information request at most once with its phase",
     "sig": "end-to-end family `sig`: nextest receives SIGINT/SIGTERM/SIGHUP/SIGQUIT (optionally a second one 250 ms later) while 2-4 units are running, being terminated for a timeout, waiting out a retry delay, draining leaked handles, or while a setup script runs; units exit on the signal, ignore it (with a descendant in the group) or exit late; grace 0/300/1200 ms; monitors: same signal forwarded to every live unit and its group, SIGKILL at grace end / at once on the second signal / at once when already terminating or grace = 0, no retry and no test start after the signal, nextest exits promptly with 100 (105 during setup), nothing of a killed group survives",
     "slow": "end-to-end family `slow`: 2-4 scripted tests in parallel under slow-timeout period 250/400 ms, terminate-after none/1/2/3, grace 0/300 ms (one binary optionally overridden with its own period/terminate-after/grace); tests finish fast, finish shortly before the deadline, or hang and exit on SIGTERM / die by default action / ignore SIGTERM with a descendant in the group / exit late within the grace period; monitors on the receivers' own timestamps: no signal before terminate-after x period, SIGTERM (SIGKILL when grace = 0) at the deadline, group kill at deadline + grace, descendants signalled and dead, result Timeout, slow flag, TestSlow events",
